@@ -6,10 +6,13 @@ import (
 	"crypto/tls"
 	"fmt"
 	"io"
+	"log"
 	"net"
 	"net/http"
+	"os"
 	"sort"
 	"strings"
+	"sync/atomic"
 	"time"
 
 	"github.com/superfly/litefs"
@@ -114,10 +117,36 @@ func (m *apiImpl) Do(line string) string {
 	return m.eng.Do(line)
 }
 
+// panicLog counts the "panic serving" lines net/http and x/net/http2 write to the standard logger
+// when a handler panics (the server recovers and resets the connection / stream).
+type panicLog struct{ n atomic.Int64 }
+
+func (p *panicLog) Write(b []byte) (int, error) {
+	if bytes.Contains(b, []byte("panic serving")) || bytes.Contains(b, []byte("panic:")) {
+		p.n.Add(1)
+	}
+	if os.Getenv("VERIF_LOG") != "" {
+		_, _ = os.Stderr.Write(b)
+	}
+	return len(b), nil
+}
+
+var handlerPanics = &panicLog{}
+
 func (m *apiImpl) http(f []string) string {
 	if len(f) != 6 || m.srv == nil {
 		return "bad-op"
 	}
+	log.SetOutput(handlerPanics)
+	p0 := handlerPanics.n.Load()
+	out := m.http1(f)
+	if handlerPanics.n.Load() != p0 {
+		out += " PANIC"
+	}
+	return out
+}
+
+func (m *apiImpl) http1(f []string) string {
 	proto, method, path, query, node, body := f[0], f[1], f[2], f[3], f[4], f[5]
 	var rd io.Reader
 	switch {
@@ -132,6 +161,16 @@ func (m *apiImpl) http(f []string) string {
 		var buf bytes.Buffer
 		_ = lhttp.WritePosMapTo(&buf, m.eng.store.PosMap())
 		rd = &buf
+	case strings.HasPrefix(body, "posmapcut:"): // the node's own position map, cut after n bytes
+		var buf bytes.Buffer
+		_ = lhttp.WritePosMapTo(&buf, m.eng.store.PosMap())
+		var n int
+		fmt.Sscanf(body[10:], "%d", &n)
+		b := buf.Bytes()
+		if n < len(b) {
+			b = b[:n]
+		}
+		rd = bytes.NewReader(b)
 	case body == "posmap-bad":
 		rd = bytes.NewReader([]byte{0, 0, 0, 9, 0, 0})
 	case body == "posmap-huge":
@@ -257,6 +296,21 @@ func genAPI(c *Ctx) error {
 			return do("state") + "|" + do("ltx") + "|" + do("locks") + "|" + do("dbs")
 		}
 		invalidN, validN := 0, 0
+		// position maps cut at every field boundary and inside fields, sent to /stream
+		if r.Chance(1, 2) {
+			for _, n := range []int{0, 1, 4, 6, 8, 9, 10, 14, 18, 22, 26, 30} {
+				before := snapshotState()
+				out := do(fmt.Sprintf("http 2 POST /stream - other posmapcut:%d", n))
+				after := snapshotState()
+				if !strings.HasPrefix(out, "status=") {
+					c.Fail(fmt.Sprintf("history %d: truncated position map (%d bytes) got no response: %s", h, n, out))
+				}
+				if before != after {
+					c.Fail(fmt.Sprintf("history %d: truncated position map (%d bytes) changed the node", h, n))
+				}
+				invalidN++
+			}
+		}
 		steps := r.Range(10, 24)
 		for i := 0; i < steps; i++ {
 			proto := pick(r, []string{"1", "2"})
@@ -316,6 +370,9 @@ func genAPI(c *Ctx) error {
 			out := do(op)
 			after := snapshotState()
 			c.Count("res." + firstWords(out, 1))
+			if out == "timeout" {
+				continue // judged by the spec: only import / export may wait, and only for a granted halt lock
+			}
 			if !strings.HasPrefix(out, "status=") {
 				c.Fail(fmt.Sprintf("history %d: %s got no response: %s", h, op, out))
 				break
